@@ -126,7 +126,11 @@ _LEGACY_BEFORE = "            except Exception as e:\n                traceback 
 _SAFEFORMAT_FIXED = ("        text = fmtString % fmtDict\n        if not isinstance(text, str):\n            # A bytes format string produces bytes; that is not a usable\n"
                      "            # format string for a function which returns text.\n            raise TypeError(\"log format did not produce text\")\n")
 
+_WHY_FIXED = '            try:\n                if why:\n                    why = reflect.safe_str(why)\n                else:\n                    why = "Unhandled Error"\n            except KeyboardInterrupt:\n                raise\n            except BaseException:\n                # Even asking whether there is a "why" can fail.\n                why = reflect.safe_str(why)\n'
+_WHY_BEFORE = '            if why:\n                why = reflect.safe_str(why)\n            else:\n                why = "Unhandled Error"\n'
+
 MUTANTS = [
+    Mutant("revert-F55j-why-truth-test-guard", LOG, _WHY_FIXED, _WHY_BEFORE, expect_rule="escape/unprotected"),
     # reverts of the fix: commits
     Mutant("revert-F55-timestamp-guard", FMT, _TS_FIXED, _TS_BEFORE, expect_rule="escape/unprotected"),
     Mutant("revert-F55-F55e-formatSystem-guard", FMT, _SYS_FIXED, _SYS_BEFORE, expect_rule="escape/"),
@@ -167,7 +171,10 @@ MUTANTS = [
            expect_rule="returns-text"),
     Mutant("safeFormat-second-handler-narrowed", LOG, "        except BaseException:\n            try:\n                text = (\n                    \"UNFORMATTABLE",
            "        except Exception:\n            try:\n                text = (\n                    \"UNFORMATTABLE", expect_rule="escape/handler-not-catch-all"),
-    Mutant("legacy-why-str", LOG, "                why = reflect.safe_str(why)\n", "                why = str(why)\n", expect_rule="escape/unprotected"),
+    Mutant("legacy-why-str", LOG, "                if why:\n                    why = reflect.safe_str(why)\n", "                if why:\n                    why = str(why)\n",
+           more=[(LOG, "                # Even asking whether there is a \"why\" can fail.\n                why = reflect.safe_str(why)\n", "                why = str(why)\n")], expect_rule="escape/unprotected"),
+    Mutant("legacy-why-guard-narrowed", LOG, "            except BaseException:\n                # Even asking whether there is a \"why\" can fail.\n", "            except Exception:\n                # Even asking whether there is a \"why\" can fail.\n",
+           expect_rule="escape/handler-not-catch-all"),
     Mutant("legacy-message-str", LOG, "        text = \" \".join(map(reflect.safe_str, edm))", "        text = \" \".join(map(str, edm))", expect_rule="escape/unprotected"),
 ]
 SILENT = [
@@ -192,8 +199,8 @@ SILENT = [
            "        fmt = cast(Optional[Union[str, bytes]], event.get(\"log_format\", None))\n        if fmt is None:\n            return \"\"\n        if isinstance(fmt, bytes):\n            fmt = fmt.decode(\"utf-8\")\n        elif not isinstance(fmt, str):\n            raise TypeError(f\"Log format must be str, not {fmt!r}\")\n        return formatWithCall(fmt, event)\n"),
     Silent("bare-except", FMT, "    except BaseException:\n        # Yikes, something really nasty happened.", "    except:\n        # Yikes, something really nasty happened."),
     Silent("concat-instead-of-join", FMT, "        system = \"\".join([\"[\", _formatSystem(event), \"]\", \" \"])", "        system = \"[\" + _formatSystem(event) + \"] \""),
-    Silent("legacy-header-local-and-guard-clause", LOG, "            if why:\n                why = reflect.safe_str(why)\n            else:\n                why = \"Unhandled Error\"\n",
-           "            heading = reflect.safe_str(why) if why else \"Unhandled Error\"\n",
+    Silent("legacy-header-local-inside-the-guard", LOG, _WHY_FIXED,
+           "            try:\n                heading = reflect.safe_str(why) if why else \"Unhandled Error\"\n            except KeyboardInterrupt:\n                raise\n            except BaseException:\n                heading = reflect.safe_str(why)\n",
            more=[(LOG, "            text = why + \"\\n\" + traceback\n", "            text = heading + \"\\n\" + traceback\n")]),
     Silent("time-formatting-helper-extracted", FMT, "        tz = FixedOffsetTimeZone.fromLocalTimeStamp(when)\n        datetime = DateTime.fromtimestamp(when, tz)\n        return str(datetime.strftime(timeFormat))\n",
            "        return _strftimeLocal(when, timeFormat)\n\n\ndef _strftimeLocal(stamp, pattern):\n    zone = FixedOffsetTimeZone.fromLocalTimeStamp(stamp)\n    return str(DateTime.fromtimestamp(stamp, zone).strftime(pattern))\n"),
